@@ -373,6 +373,38 @@ def run(chk: Check) -> None:
                      {"fields": fields, "files": [(a, b.hex(), c, d) for a, b, c, d in files], "boundary": b2, "got": str(got2)[:300]})
         chk.count("e2e")
 
+    # ---------------- sizes at the library's internal thresholds: 16384 (the encoder's read size), 65536 (the form parser's
+    # default buffer), 1024*500 (stream_encode_multipart's spill-over to a temporary file and the SpooledTemporaryFile limit of
+    # default_stream_factory): byte-exact contents on both sides of each, through both end-to-end routes
+    sizes = [16383, 16384, 16385, 32768, 65535, 65536, 65537, 1024 * 500 - 1, 1024 * 500, 1024 * 500 + 1]
+    if not quick:
+        sizes += [2 * 65536 - 1, 2 * 65536 + 1, 1024 * 500 - 200, 1024 * 500 + 200, 1024 * 1000 + 3]
+    for size in sizes:
+        blob = bytes((i * 131 + (i >> 8) * 7 + size) & 0xFF for i in range(size))
+        # keep it a legal payload for the boundary in use
+        blob = blob.replace(b"\r", b"r").replace(b"\n", b"n")
+        for route in ("environ", "stream"):
+            try:
+                if route == "environ":
+                    eb = EnvironBuilder(method="POST", data={"t": "x", "f": FileStorage(io.BytesIO(blob), filename="big.bin", content_type="application/octet-stream"), "u": "é"})
+                    req = Request(eb.get_environ())
+                    got = (req.form.get("t"), req.form.get("u"), req.files["f"].read(), req.files["f"].filename)
+                    eb.close()
+                else:
+                    d = MultiDict([("t", "x"), ("f", FileStorage(io.BytesIO(blob), filename="big.bin", content_type="application/octet-stream")), ("u", "é")])
+                    st, ln, bd = stream_encode_multipart(d, use_tempfile=True)
+                    form, fl = MultiPartParser(buffer_size=rng.choice([1 << 16, 1 << 14, 4097])).parse(st, bd.encode(), ln)
+                    got = (form.get("t"), form.get("u"), fl["f"].read(), fl["f"].filename)
+                    st.close()
+            except Exception as e:  # noqa: BLE001
+                got = repr(e)
+            if got != ("x", "é", blob, "big.bin"):
+                chk.fail("large-file-roundtrip", f"{route}: a {size}-byte upload did not come back identical",
+                         {"size": size, "route": route, "got": (repr(got)[:200] if not isinstance(got, tuple) else
+                                                                 [got[0], got[1], len(got[2]) if isinstance(got[2], bytes) else repr(got[2]), got[3]])})
+            chk.case(("large", size, route), True)
+    chk.count("large-sizes", len(sizes))
+
     exe = chk.build_modelrun("C02")
     if not exe:
         return
